@@ -36,16 +36,30 @@ MANIFEST_TEXT = ("Lean 4 theorems (35 obligations) about a line-by-line transcri
                  "literal + blanks whose pieces evaluate to a finite number, returning that evaluation (lexer soundness and "
                  "completeness).  bool_array_spec: std::array<bool,n> = exactly n integer literals with value 0/1.  New target "
                  "types in the run: long, unsigned long, signed/unsigned char, std::array<bool,0..3>; the second global locale now "
-                 "also has a caseless ctype facet (Parser<bool> must lower-case with the classic locale).")
+                 "also has a caseless ctype facet (Parser<bool> must lower-case with the classic locale).  Round five: the "
+                 "translator reads a normal form of every function body (statement tree + checked rewrite rules, see "
+                 "MANIFEST_NOTE), and additionally ties the trim applied before the closing quote is cut off "
+                 "(iniQuoteCloseTrims) and that the dotted-key pieces are taken inside the `dot != npos` branch.")
 MANIFEST_NOTE = ("Trusted: Lean kernel (+propext/Classical.choice/Quot.sound), the hand-written model's fidelity (differential "
                  "execution; the translator ties the data - character sets, markers, offsets, word table, conditions - not the control flow), the harness' reference tree / strict dialect recogniser / numeric recognisers "
                  "(std::from_chars for floating values), g++/libstdc++/glibc, ASan/UBSan.  operator>> is libstdc++'s: its "
                  "classic-locale integer, floating, word and char extraction are modelled; float/double values are compared bit-exactly "
                  "through a correctly-rounded conversion in the model; proved for floating targets is acceptance iff literal syntax "
                  "with finite evaluation (float_accept_iff), but nothing about the rounding function roundToBin itself (no theorem that "
-                 "it is the nearest representable number).  The translator (regex/mini-parsers on the comment-stripped source, no C++ "
-                 "front end) canonicalises set order, commuted ||-alternatives, 'c' vs \"c\", k+v vs v+k, position-variable names and "
-                 "fall-through case labels; any other deviation from its patterns is a loud TranslateError.  Hostile/"
+                 "it is the nearest representable number).  The translator (no C++ front end: a statement-level parser of function bodies + "
+                 "regex/mini-parsers on the normal form) canonicalises set order, commuted ||-alternatives, 'c' vs \"c\", k+v vs v+k, position-variable names, "
+                 "fall-through case labels, and since round five: not/and/or, this->, nullptr, const locals, literal==x vs x==literal, "
+                 "size()==0 / ==\"\" / length()>0 vs empty(), straight-line private helper functions (inlined at call sites that "
+                 "are the first operation of an if-condition/return/initialiser), names of parameters and of locals with a modelled "
+                 "role (recognised by position / initialiser), conditional expression vs if/return, else after a jump, guard clauses "
+                 "and swapped branches on x==npos, `if (c) continue;` guards, for vs while with trailing increments, i++ / i+=1 / ++i, "
+                 "range-for and begin()/end() iterator loops vs index loops with an otherwise unused counter, a loop-carried cache of a "
+                 "side-effect-free expression that is refreshed as the last statement of the loop body, x=E; x=G[x] vs x=G[E], and "
+                 "once-initialised locals with a side-effect-free initialiser whose operands do not change before the last use.  Every "
+                 "rule checks its side condition on the text (conservatively: an unknown call that receives a variable counts as a "
+                 "change of it) and leaves the code alone otherwise; any remaining deviation from the patterns is a loud TranslateError "
+                 "(still alarming although harmless: std algorithms for hand loops, count-down loops, reordered statements, helpers with "
+                 "control flow, switch vs if-chain, renamed key/value in readNamedOptions - design_notes/C12.md 11.4).  Hostile/"
                  "out-of-dialect byte streams: only 'no crash, no hang (60 s alarm), success or Dune exception' is checked, the model is "
                  "not compared there (it is nevertheless total: parse_total).  Not claimed: '#' inside quoted values, a quote character "
                  "inside a value quoted with the same character, a negative literal for an unsigned target (answer masked as 'noclaim'), "
@@ -77,7 +91,7 @@ RULE = ("cases: rt = random key/value hierarchy (shared groups, depth<=4) spelle
         "distinct = distinct op lines; non-trivial = the independent oracle made a claim (inside the dialect / syntax)")
 ASSUMPTIONS = [
     "the Lean model lean/DuneVerif/Model/C12.lean is hand-written; the data it is written with (character sets, markers, offsets, word table, conditions) is tied to the source by tr_c12.py + the src_* theorems, its control flow only by this differential run",
-    "tr_c12.py reads the source with regular expressions and small parsers (no C++ front end); what it canonicalises is listed in its docstring",
+    "tr_c12.py reads the source with a statement-level parser, checked rewrite rules into a normal form, regular expressions and small parsers (no C++ front end, no types, no overload resolution); what it canonicalises is listed in its docstring; its purity / `variable is not modified` judgements are textual and conservative, and the rewrite rules themselves are trusted (they are exercised by harmless/C12_* and must keep every seeded/C12_* caught)",
     "bytes are modelled as Lean Char values < 256; std::string/std::istringstream/getline behave as specified",
     "operator>> for built-in integers/double/std::string is libstdc++'s classic-locale num_get (modelled, not verified); strtod is correctly rounded",
     "the hostile stream is checked for termination/exception class only (60 s alarm per op)",
